@@ -1,7 +1,8 @@
 (* Byte strings in case files: (ue "...") where \HH is the byte with hexadecimal code HH.
    Used only by the harness printers (C15, C16) so that Coq reads a literal instead of a
    list of numerals. *)
-From Coq Require Import String Ascii Arith.
+From Coq Require Import String Ascii Arith List.
+From Coq.Strings Require Import Byte.
 Local Open Scope string_scope.
 
 Definition hexval (c : ascii) : nat :=
@@ -22,3 +23,13 @@ Fixpoint ue (s : string) : string :=
 
 Example ue_ex : ue "a\0a\5cb\ef""" = String "a" (String (ascii_of_nat 10) (String "\" (String "b" (String (ascii_of_nat 239) (String """" EmptyString))))).
 Proof. reflexivity. Qed.
+
+(* A literal "..."%bstr is elaborated through a constructor (no conversion function to
+   normalise), several times faster than a string literal; [ub] turns it into a string and
+   undoes the \HH escapes. *)
+Inductive bstr := BS (l : list byte).
+Definition unBS (b : bstr) : list byte := match b with BS l => l end.
+Declare Scope bstr_scope.
+Delimit Scope bstr_scope with bstr.
+String Notation bstr BS unBS : bstr_scope.
+Definition ub (b : bstr) : string := ue (string_of_list_byte (unBS b)).
